@@ -39,3 +39,15 @@ w('C02', 'fixed_fold_negative_zero', 'PRINT 0& / (-.5#)\n')
 w('C01', 'fixed_integer_power_hang', 'PRINT 2 ^ 3\nPRINT 2147483647 ^ 2147483647\n', {'prints': ' 8 \r\n', 'outcome': 'INVALID_CELL_VALUE'})
 w('C01', 'fixed_condition_nonzero', 'IF .3 THEN PRINT "t" ELSE PRINT "f"\nIF 100000 THEN PRINT "t"\nx% = 5: c% = 0\nDO\nc% = c% + 1\nLOOP WHILE x% - c%\nPRINT c%\nc# = 3\nDO\nc# = c# - 1\nLOOP UNTIL c# - 1\nPRINT c#\n', {'prints': 't\r\nt\r\n 5 \r\n 2 \r\n'})
 w('C01', 'fixed_restore_plain', 'READ a$: RESTORE: READ b$: PRINT a$; b$\nDATA x\nfoo: DATA y\n', {'prints': 'xx\r\n'})
+w('C06', 'fixed_signed_exponent', 'PRINT 2 ^ -1\nKILL 2 ^ -1\n')
+w('C06', 'fixed_operand_type_checks', 'TYPE rt\na AS INTEGER\nEND TYPE\nDIM r AS rt, arr(3)\nSOUND r, 7\n')
+w('C06', 'fixed_operand_type_checks2', 'DIM arr(3)\nDEF SEG = arr\n')
+w('C06', 'fixed_operand_type_checks3', 'BSAVE s$, 7, s$\n')
+w('C06', 'fixed_string_condition', 'IF s$ THEN PRINT 1\n')
+w('C06', 'fixed_nonnumeric_bound', 'DIM z("t" TO 7) AS INTEGER\n')
+w('C06', 'fixed_record_as_value', 'TYPE rt\na AS INTEGER\nEND TYPE\nDIM r AS rt, r2 AS rt\nr2 = r\n')
+w('C06', 'fixed_bload_no_offset', 'BLOAD "f"\n')
+w('C06', 'fixed_misplaced_case', 'n% = 1\nIF n% THEN\nCASE n%\nEND IF\n')
+w('C06', 'fixed_misplaced_case2', 'CASE 5 > 0\n')
+w('C06', 'fixed_second_else', 'IF 7 THEN\nELSE\nELSE\nEND IF\n')
+w('C06', 'fixed_read_into_call', 'READ fn%(2)\nFUNCTION fn%(p%)\nEND FUNCTION\n')
